@@ -11,6 +11,7 @@ import (
 	"fmt"
 	"io"
 	"strings"
+	"sync"
 	"testing"
 	"time"
 
@@ -86,8 +87,49 @@ func c01RegistryProbe(m *vk.M) bool {
 	return false
 }
 
+// c01Ctx is a caller context whose state the harness flips deterministically
+// (no timers): before the call or while the invoker/handler runs.
+type c01Ctx struct {
+	context.Context
+	mu   sync.Mutex
+	err  error
+	done chan struct{}
+}
+
+func c01NewCtx() *c01Ctx { return &c01Ctx{Context: context.Background(), done: make(chan struct{})} }
+
+func (c *c01Ctx) end(err error) {
+	c.mu.Lock()
+	if c.err == nil {
+		c.err = err
+		close(c.done)
+	}
+	c.mu.Unlock()
+}
+func (c *c01Ctx) Err() error {
+	c.mu.Lock()
+	defer c.mu.Unlock()
+	return c.err
+}
+func (c *c01Ctx) Done() <-chan struct{} { return c.done }
+func (c *c01Ctx) Deadline() (time.Time, bool) {
+	return time.Time{}, false
+}
+
+// caller-context kinds: how the caller's context ends and when
+var c01CtxKinds = []struct {
+	name   string
+	err    error
+	during bool
+}{
+	{"ctx-cancelled-before-call", context.Canceled, false},
+	{"ctx-deadline-expired-before-call", context.DeadlineExceeded, false},
+	{"ctx-cancelled-during-call", context.Canceled, true},
+	{"ctx-deadline-expires-during-call", context.DeadlineExceeded, true},
+}
+
 func TestVerifC01ClientInterceptorTable(t *testing.T) {
-	m := vk.New(t, "C01", "clientinterceptors.BreakerInterceptor with an invoker answering one gRPC code, one method (= one named breaker) per row, virtual clock frozen: benign code x150 and each error without a gRPC status (plain, custom type, raw context.Canceled, io.EOF, wrapped benign status) x150 => invoker always runs; failing code x400 => at least one call short-circuited with ErrServiceUnavailable; 10000 mixed benign codes on one method => 0 rejections; non-trivial = row completed (benign) / rejected (failing)")
+	m := vk.New(t, "C01", "clientinterceptors.BreakerInterceptor with an invoker answering one gRPC code, one method (= one named breaker) per row, virtual clock frozen: benign code x150 and each error without a gRPC status (plain, custom type, raw context.Canceled, io.EOF, wrapped benign status) x150 => invoker always runs; failing code x400 => at least one call short-circuited with ErrServiceUnavailable; 10000 mixed benign codes on one method => 0 rejections; the whole code table again with caller contexts cancelled / past their deadline before or during the call (classification by the call's gRPC status only); non-trivial = row completed (benign) / rejected (failing)")
 	defer m.Done()
 	logx.Disable()
 	stat.SetReporter(nil)
@@ -179,6 +221,67 @@ func TestVerifC01ClientInterceptorTable(t *testing.T) {
 			}
 		}
 		m.Case("benign-nonstatus-"+row.name, okRow)
+	}
+	// ---- caller contexts that are cancelled / past their deadline (before or during the call): the
+	// outcome class is the gRPC status of the call, whatever ctx.Err() says - a DeadlineExceeded caused
+	// by the caller's own per-call deadline is still the statement's DeadlineExceeded
+	for ki, ck := range c01CtxKinds {
+		for c := gcodes.Code(0); c <= gcodes.Unauthenticated; c++ {
+			name := c.String()
+			method := fmt.Sprintf("/c01.%s/%s/%s", tag, ck.name, name)
+			desc := fmt.Sprintf("case=%d;%s, invoker always answers %s", 300+ki*20+int(c), ck.name, name)
+			one := func() (ran bool, err error) {
+				ctx := c01NewCtx()
+				if !ck.during {
+					ctx.end(ck.err)
+				}
+				err = BreakerInterceptor(ctx, method, nil, nil, cc,
+					func(ictx context.Context, method string, req, reply interface{}, cc *grpc.ClientConn, opts ...grpc.CallOption) error {
+						ran = true
+						if ck.during {
+							ctx.end(ck.err)
+						}
+						return c01CodeErr(c)
+					})
+				return
+			}
+			if !c01Failing[c] {
+				okRow := true
+				for i := 0; i < perBenign; i++ {
+					ran, err := one()
+					m.Count("calls_benign_caller_ctx_ended", 1)
+					if !ran {
+						m.Violate("C01:benign:grpc-client:"+ck.name+":"+name+":rejected", desc, "call #%d short-circuited (%v) after only %s outcomes", i, err, name)
+						okRow = false
+						break
+					}
+				}
+				m.Case(ck.name+"-benign-"+name, okRow)
+				continue
+			}
+			rej := 0
+			bad := false
+			for i := 0; i < perBad; i++ {
+				ran, err := one()
+				m.Count("calls_failing_caller_ctx_ended", 1)
+				if !ran {
+					rej++
+					if err != breaker.ErrServiceUnavailable {
+						m.Violate("C01:reject:grpc-client:wrong-error", desc, "short-circuited call #%d returned %v", i, err)
+						bad = true
+						break
+					}
+				}
+			}
+			m.Count("calls_rejected_caller_ctx_ended", int64(rej))
+			if !bad && rej == 0 {
+				m.Violate("C01:nonbenign:grpc-client:"+ck.name+":"+name+":never-cut-off", desc, "%d consecutive %s answers on calls whose caller context was %s and the invoker ran every time: the caller's context state hides the failure", perBad, name, ck.name)
+			}
+			m.Case(ck.name+"-failing-"+name, rej > 0)
+			if c == gcodes.DeadlineExceeded {
+				m.Sample(map[string]any{"scenario": fmt.Sprintf("%s, DeadlineExceeded x%d", ck.name, perBad), "short_circuited": rej})
+			}
+		}
 	}
 	method := fmt.Sprintf("/c01.%s/mixed", tag)
 	n := vk.N(10000, 200000)
